@@ -81,3 +81,25 @@ Example c01_example :
   /\ cell_width (new_cell W e (IObj 1)) = 7%Z
   /\ cell_empty (new_cell W e (ICell (new_cell W e (IString [])))) = true.
 Proof. vm_compute. repeat split; reflexivity. Qed.
+
+(* END TO END (Proofs/E2E*.v).  `hview W e json h` is what a renderer sees after
+   the history h of public-API calls (Model/Table.v: building calls in any
+   interleaving plus column property settings) over ARBITRARY items
+   (Model/Cell.v); `twf_hist h`: the building calls form a well-formed history
+   (Spec/History.v).  hist_header / hist_rows / hist_records / hist_ncols are
+   read off the history alone (Spec/TableHist.v); documented_text is C01's
+   text form (Spec/CellText.v). *)
+From Tab Require Import Model.Cell Model.Table Spec.TableHist Spec.CellText Proofs.E2EProofs.
+
+(* "... the same text as shown by every renderer": whatever the history of
+   building calls and whatever the items, every cell that any renderer reads
+   (header and body, in order) shows exactly the documented text of the item
+   the history put at that position.  With c05_history, c06_history,
+   c07_history_keys, c08_history_texts and c03_history_colwidth this is the
+   text each format's output round-trips to. *)
+Theorem c01_shown_by_every_renderer : forall (W : list N -> nat) (e : env) (json : item -> option (list N)) (h : list top),
+  twf_hist h ->
+  option_map (map vc_text) (v_header (hview W e json h)) = option_map (map (documented_text e)) (hist_header h)
+  /\ map (option_map (map vc_text)) (v_rows (hview W e json h)) = map (option_map (map (documented_text e))) (hist_rows h).
+Proof. exact hview_texts. Qed.
+Print Assumptions c01_shown_by_every_renderer.
